@@ -6,6 +6,16 @@ Tie: X.  coq/theories/FairShare/Model.v is a hand model of the water-filling loo
 Every run executes the REAL method (imported through the loader, the database replaced by an async generator of
 rows, real sortedcontainers) and the model (vm_compute) on the same inputs and compares every user's allocation.
 The oracle evaluates the property's clauses directly on the real method's output.
+
+The caller PoolScheduler.compute_fair_share (which supplies 'the free cores') is covered too: FairShare/Caller.v models
+the healthy set (Pool.adjust_for_add_instance's guard) and the un-clamped sum over it; Props_C11.v lifts the theorems to
+`compute_fair_share` on ANY list of instances (C11_caller_*).  Tie: generate() checks that the two code fragments still
+have the transcribed shape (fail closed), and correspond() runs the real Pool.add_instance + compute_fair_share on real
+Pool/Instance/PoolScheduler objects (harness/impl/c11_caller.py) against the model: free amount handed to
+_compute_fair_share, membership of the healthy set, every allocation.  The oracle reads the schedulable free cores from the
+instances' own fields (active, < 2 failed requests; and current version for the stricter clause) and evaluates the
+property's clauses with that amount.  Open finding: healthy workers of an OLDER version are counted
+(key caller-counts-old-version-workers; C11_caller_total_le_placeable_refuted / _partial).
 """
 import glob
 import itertools
@@ -22,14 +32,27 @@ META = dict(
     design_ref='§5.B C11',
     technique='Coq proof (loop invariant + termination measure) about a hand model of the water-filling loop; model tied to the '
               'real method by differential execution (exhaustive small multisets + seeded random up to 200 users / 1e9 mcpu, '
-              'ties and rounding boundaries oversampled)',
+              'ties and rounding boundaries oversampled); the caller compute_fair_share: Coq model of the healthy set + un-clamped sum, '
+              'lifted theorems, AST-shape check (fail closed) + differential execution of the real Pool.add_instance/compute_fair_share on '
+              'real Pool/Instance objects with healthy / unhealthy / oversubscribed / non-active / old-version workers',
     level_text='Machine-checked theorems (Coq 8.16, closed under the global context), for every list of users with non-negative '
                'running/ready cores (all multisets, every arrival order) and every integer amount of free cores incl. zero/negative: '
                'the loop terminates; allocation <= ready demand; allocation >= 0; 2*sum <= 2*max(0,free) + #users with a positive '
                'allocation (slack of half a millicore per served user, shown attained); free <= 0 gives all zeros; if demand >= free > 0 '
                'then 2*sum > 2*free - #users; if demand <= free everybody gets its demand; there is one water level L with '
                'alloc(u) = max(0, min(ready u, L - running u)); pairwise max-min fairness with no slack. The model is a hand '
-               'transcription; its equality with the real method is checked by execution on every run, not proved.',
+               'transcription; its equality with the real method is checked by execution on every run, not proved. '
+               'CALLER (PoolScheduler.compute_fair_share), proved for every list of instances (any state, failed-request count, version, '
+               'free cores incl. negative) and every such user list: the free amount of the model equals the sum of free_cores_mcpu '
+               '(negative included, not clamped) over the instances that are active with <= 1 failed requests; 2*sum of allocations <= '
+               '2*max(0, that amount) + #served users; nothing is allocated when that amount is <= 0; work conservation w.r.t. that amount; '
+               'instances outside the healthy set and the order of the instances have no influence. The version-aware bound (only workers '
+               'of the current INSTANCE_VERSION can receive jobs) is proved under the hypothesis that all healthy workers run the current '
+               'version (_partial) and REFUTED without it (_refuted, open finding caller-counts-old-version-workers). Only run-checked, not '
+               'proved: that the model of the caller (healthy-set guard, sum) equals the real code (AST shape of compute_fair_share and of '
+               'Pool.adjust_for_add_instance compared with the transcribed statements on every run + execution on generated pools); the '
+               'incremental maintenance of the healthy set over the life of a pool (adjust_for_remove_instance around Instance.mark_healthy / '
+               'incr_failed_request_count / adjust_free_cores_in_memory / activate / deactivate) is NOT covered: pools are built by add_instance only.',
     level_note='Trusted: Coq kernel; the correspondence run (loader, fake db row generator, CPython float semantics); the two float '
                'roundings int(k+0.5) and int(a/n+0.5) are modelled by exact integer formulas, validated on every run at generated '
                'boundary points (a = q*n + n/2 +- 1 up to 2^50) but not proved for binary64.',
@@ -37,11 +60,17 @@ META = dict(
 )
 TRUSTED = ['hand model coq/theories/FairShare/Model.v of _compute_fair_share, tied by differential execution only',
            'loader (stubbed third-party packages) + fake db.execute_and_fetchall (async generator of dict rows) + real sortedcontainers',
-           'CPython 3.12 float arithmetic as the semantics of int(x + 0.5)']
+           'CPython 3.12 float arithmetic as the semantics of int(x + 0.5)',
+           'hand model coq/theories/FairShare/Caller.v of compute_fair_share + the healthy-set guard, tied by an AST-shape comparison and '
+           'differential execution (harness/impl/c11_caller.py: real Pool / Instance / PoolScheduler objects created without __init__, '
+           'real add_instance path, recording subclass for the argument of _compute_fair_share)']
 ASSUMPTIONS = ['running_cores_mcpu and ready_cores_mcpu are non-negative integers and user names are distinct (GROUP BY user)',
                'float exactness: for 0 <= k < 2^52, int(k + 0.5) = k and for 0 < a < 2^50, 0 < n <= a: int(a/n + 0.5) = floor((2a+n)/(2n)); '
                'validated at boundary points on every run, not proved',
-               'free_cores_mcpu is an integer (sum of integer worker.free_cores_mcpu)']
+               'free_cores_mcpu is an integer (sum of integer worker.free_cores_mcpu)',
+               'caller: the healthy set holds exactly the instances that passed the guard of Pool.adjust_for_add_instance when added '
+               '(state and failed_request_count do not change afterwards without the set being updated) - the maintenance of the set is '
+               'outside this property']
 
 HEADER = ('From HailV Require Import Common.Prelude FairShare.Model. Open Scope Z_scope.\n'
           'Definition fs (us : list (Z*Z*Z)) (f : Z) := option_map (map (fun p : (Z*Z*Z)*Z => (fst (fst (fst p)), snd p))) '
@@ -183,7 +212,7 @@ def correspond(ctx):
             dis.append(Disagreement('FairShare.fair_share~PoolScheduler._compute_fair_share', c, m, i))
     dis.sort(key=lambda d: (len(d.case[0]), abs(d.case[1])))
     # the caller: model (caller_free, healthy flags, compute_fair_share) vs the real Pool.add_instance + compute_fair_share
-    ccases = _caller_cases(ctx, ctx.scale(600, 6000))
+    ccases = _caller_cases(ctx, ctx.scale(400, 3000))
     cimpl, cinfo = _run_caller_impl(ctx, ccases)
     cmodel = _run_caller_model(ctx, ccases)
     cdis = []
@@ -282,13 +311,13 @@ def _caller_small_scope(thorough):
     """all multisets of <= 2 instances over a grid of (state, failed, version offset, free) x a few user lists"""
     kinds = [[s, f, v, fr] for s in (0, 1, 2, 3) for f in ((0, 1, 2) if s == 1 else (0, 2)) for v in (0, -1)
              for fr in ((-3, 0, 5) if s == 1 else (5,))]
-    userlists = [[[0, 4]], [[0, 4], [1, 4]], [[0, 2], [0, 9], [3, 9]]]
+    userlists = [[[0, 4], [1, 4]], [[0, 2], [0, 9], [3, 9]]] + ([[[0, 4]]] if thorough else [])
     out = []
     for k in range(0, 3 if not thorough else 4):
         for ms in itertools.combinations_with_replacement(kinds, k):
             if k == 3 and sum(1 for i in ms if i[0] == 1) < 2:
                 continue
-            for us in userlists:
+            for us in (userlists if k < 3 else userlists[:1]):
                 out.append({'instances': [list(i) for i in ms], 'users': [list(u) for u in us]})
     return out
 
@@ -399,6 +428,7 @@ def _check_caller(case, res):
     sched = _sched_free(case['instances'])
     if not isinstance(alloc, list):
         return ('caller-raises', f'compute_fair_share raised {alloc}', 'an allocation')
+    placeable = _sched_free(case['instances'], current_only=True)
     r = _check([users, sched], alloc)
     if r is not None:
         if r[0] == 'total-exceeds-free':
@@ -406,8 +436,10 @@ def _check_caller(case, res):
             return ('caller-allocates-unschedulable-cores',
                     f'compute_fair_share hands out {total} mcpu but the active workers with fewer than two failed requests have only '
                     f'{sched} mcpu free in total (free amount given to _compute_fair_share: {res.get("free_passed")})', r[2])
-        return ('caller-' + r[0], f'with the schedulable free cores ({sched}) as the free amount: ' + r[1], r[2])
-    placeable = _sched_free(case['instances'], current_only=True)
+        # the remaining clauses (work conservation, demand met, water level) are relative to 'the free cores': an implementation
+        # that leaves out the healthy workers of an older version (nothing can be placed on them) is just as acceptable
+        if placeable == sched or _check([users, placeable], alloc) is not None:
+            return ('caller-' + r[0], f'with the schedulable free cores ({sched}) as the free amount: ' + r[1], r[2])
     total = sum(alloc)
     pos = sum(1 for x in alloc if x > 0)
     if 2 * total > 2 * max(0, placeable) + pos:
